@@ -450,6 +450,7 @@ type storeOp struct {
 	Key   int  `json:"key"`
 	Del   bool `json:"del"`
 	Batch bool `json:"batch"`
+	Range bool `json:"range,omitempty"` // with Del: DeleteRange over the whole key class at that version
 }
 
 type storeCase struct {
@@ -491,8 +492,21 @@ func checkStore(c storeCase) error {
 	for i, op := range c.Ops {
 		u, k := op.Node%n, op.Key%nkeys
 		val := fmt.Sprintf("n%d#%d", u, i)
+		// A range delete writes a tombstone at u for every key that is visible there and leaves
+		// the others alone; where some key is in conflict at u the outcome is not defined by the
+		// property, so the op falls back to a point delete (a pure function of the case).
+		rangeDel := op.Del && op.Range
+		if rangeDel {
+			for kk := range entries {
+				if kind, _, _ := d.Resolve(entries[kk], u); kind == model.Conflict {
+					rangeDel = false
+				}
+			}
+		}
 		err := stats.PanicGuard("C01/store-write/panic", func() error {
 			switch {
+			case rangeDel:
+				return db.DeleteRange(ctxs[u], storage.MinTKey(177), storage.MaxTKey(177))
 			case op.Batch && batcher != nil:
 				bt := batcher.NewBatch(ctxs[u])
 				if op.Del {
@@ -510,48 +524,60 @@ func checkStore(c storeCase) error {
 		if err != nil {
 			return stats.Violf("C01/store-write/error", "op %d %+v: %v", i, op, err)
 		}
-		if op.Del {
+		touched := []int{k}
+		switch {
+		case rangeDel:
+			touched = touched[:0]
+			for kk := range entries {
+				touched = append(touched, kk)
+				if kind, _, _ := d.Resolve(entries[kk], u); kind == model.Found {
+					entries[kk][u] = model.Tombstone
+				}
+			}
+		case op.Del:
 			entries[k][u] = model.Tombstone
-		} else {
+		default:
 			entries[k][u] = model.Value
 			vals[k][u] = val
 		}
-		// after every write: every version's read of that key
-		for v := 0; v < n; v++ {
-			kind, at, frontier := d.Resolve(entries[k], v)
-			var got []byte
-			var gerr error
-			if perr := stats.PanicGuard("C01/store-Get/panic", func() error { got, gerr = db.Get(ctxs[v], tks[k]); return nil }); perr != nil {
-				return perr
-			}
-			desc := fmt.Sprintf("after op %d %+v: dag=%v key %d entries=%v query node %d model=%s at=%d frontier=%v got=%q err=%v", i, op, c.DAG.Parents, k, entries[k], v, kind, at, frontier, got, gerr)
-			switch kind {
-			case model.Found:
-				if gerr != nil {
-					return stats.Violf("C01/store-Get/error-instead-of-unique-live-value", "%s", desc)
+		// after every write: every version's read of that key (of every key after a range delete)
+		for _, k := range touched {
+			for v := 0; v < n; v++ {
+				kind, at, frontier := d.Resolve(entries[k], v)
+				var got []byte
+				var gerr error
+				if perr := stats.PanicGuard("C01/store-Get/panic", func() error { got, gerr = db.Get(ctxs[v], tks[k]); return nil }); perr != nil {
+					return perr
 				}
-				if got == nil {
-					return stats.Violf("C01/store-Get/absent-instead-of-unique-live-value", "%s", desc)
+				desc := fmt.Sprintf("after op %d %+v: dag=%v key %d entries=%v query node %d model=%s at=%d frontier=%v got=%q err=%v", i, op, c.DAG.Parents, k, entries[k], v, kind, at, frontier, got, gerr)
+				switch kind {
+				case model.Found:
+					if gerr != nil {
+						return stats.Violf("C01/store-Get/error-instead-of-unique-live-value", "%s", desc)
+					}
+					if got == nil {
+						return stats.Violf("C01/store-Get/absent-instead-of-unique-live-value", "%s", desc)
+					}
+					if string(got) != vals[k][at] {
+						return stats.Violf("C01/store-Get/wrong-value", "want %q; %s", vals[k][at], desc)
+					}
+				case model.Absent:
+					if gerr != nil {
+						return stats.Violf("C01/store-Get/error-where-absent", "%s", desc)
+					}
+					if got != nil {
+						return stats.Violf("C01/store-Get/value-where-none-visible", "%s", desc)
+					}
+				case model.Conflict:
+					if gerr == nil && got != nil {
+						return stats.Violf("C01/store-Get/succeeds-on-conflict", "%s", desc)
+					}
 				}
-				if string(got) != vals[k][at] {
-					return stats.Violf("C01/store-Get/wrong-value", "want %q; %s", vals[k][at], desc)
-				}
-			case model.Absent:
-				if gerr != nil {
-					return stats.Violf("C01/store-Get/error-where-absent", "%s", desc)
-				}
-				if got != nil {
-					return stats.Violf("C01/store-Get/value-where-none-visible", "%s", desc)
-				}
-			case model.Conflict:
-				if gerr == nil && got != nil {
-					return stats.Violf("C01/store-Get/succeeds-on-conflict", "%s", desc)
-				}
-			}
-			if kind != model.Conflict {
-				ex, eerr := db.Exists(ctxs[v], tks[k])
-				if eerr == nil && ex != (kind == model.Found) {
-					return stats.Violf("C01/store-Exists/differs", "Exists=%v; %s", ex, desc)
+				if kind != model.Conflict {
+					ex, eerr := db.Exists(ctxs[v], tks[k])
+					if eerr == nil && ex != (kind == model.Found) {
+						return stats.Violf("C01/store-Exists/differs", "Exists=%v; %s", ex, desc)
+					}
 				}
 			}
 		}
@@ -575,6 +601,9 @@ func TestC01Store(t *testing.T) {
 				Del:   rapid.IntRange(0, 2).Draw(t, "del") == 0,
 				Batch: rapid.Bool().Draw(t, "batch"),
 			})
+			if c.Ops[i].Del {
+				c.Ops[i].Range = rapid.IntRange(0, 2).Draw(t, "range") == 0
+			}
 		}
 		stats.SetCur("C01", "TestC01Store", c)
 		if !stats.Judge(t, "C01", "TestC01Store", checkStore(c), c) {
@@ -584,8 +613,12 @@ func TestC01Store(t *testing.T) {
 		per := map[int]map[int]bool{}
 		hasDel := false
 		rewrite := false
+		rangeAfterWrite := false
 		seen := map[[2]int]bool{}
 		for _, op := range c.Ops {
+			if op.Del && op.Range && len(seen) > 0 {
+				rangeAfterWrite = true
+			}
 			if per[op.Key] == nil {
 				per[op.Key] = map[int]bool{}
 			}
@@ -611,6 +644,9 @@ func TestC01Store(t *testing.T) {
 		if hasDel {
 			cls = append(cls, "store/has-delete")
 		}
+		if rangeAfterWrite {
+			cls = append(cls, "store/range-delete-after-write")
+		}
 		stats.Record(stats.HashJSON(c), nt && hasDel, cls, func() interface{} { return map[string]interface{}{"test": "store", "case": c} })
 	})
 }
@@ -631,15 +667,15 @@ type httpCase struct {
 }
 
 type repoModel struct {
-	root     string
-	dag      *model.DAG
-	uuid     []string
-	locked   []bool
-	branch   []string
-	kids     map[int]map[string]bool
-	entries  [2][]map[int]int    // [inst][key] -> node -> kind    (inst 1: everything at node 0)
-	vals     [2][]map[int]string // [inst][key] -> node -> value
-	nbranch  int
+	root    string
+	dag     *model.DAG
+	uuid    []string
+	locked  []bool
+	branch  []string
+	kids    map[int]map[string]bool
+	entries [2][]map[int]int    // [inst][key] -> node -> kind    (inst 1: everything at node 0)
+	vals    [2][]map[int]string // [inst][key] -> node -> value
+	nbranch int
 }
 
 var httpKeys = []string{"a", "ab", "b", "k0"}
